@@ -330,7 +330,19 @@ def run_case(case):
                     pv.x, pv.y, pv.z = r.uniform(-1, 1), r.uniform(-1, 1), r.uniform(-1, 1)
                     pv.vx, pv.vy, pv.vz = r.uniform(-1, 1), r.uniform(-1, 1), r.uniform(-1, 1)
                 vars_.append(vv)
+            v2 = None
+            if nvar == 2 and r.random() < 0.7:
+                # a second-order variation whose two first-order parents both carry coordinate AND mass variations
+                v2 = sim.add_variation(order=2, first_order=vars_[0], first_order_2=vars_[1])
+                for i in range(N):
+                    pv = v2.particles[i]
+                    pv.m = r.choice([0.0, r.uniform(-1, 1)])
+                    pv.x, pv.y, pv.z = r.uniform(-1, 1), r.uniform(-1, 1), r.uniform(-1, 1)
+                    pv.vx, pv.vy, pv.vz = r.uniform(-1, 1), r.uniform(-1, 1), r.uniform(-1, 1)
             ld = np.longdouble
+            if v2 is not None:
+                var20 = np.array([[v2.particles[i].x, v2.particles[i].y, v2.particles[i].z, v2.particles[i].vx, v2.particles[i].vy, v2.particles[i].vz] for i in range(N)], dtype=ld)
+                ddm0 = np.array([v2.particles[i].m for i in range(N)], dtype=ld)
             real0 = np.array([[p.x, p.y, p.z, p.vx, p.vy, p.vz] for p in sim.particles[:N]], dtype=ld)
             m0 = np.array([p.m for p in sim.particles[:N]], dtype=ld)
             var0 = [np.array([[vv.particles[i].x, vv.particles[i].y, vv.particles[i].z, vv.particles[i].vx, vv.particles[i].vy, vv.particles[i].vz] for i in range(N)], dtype=ld) for vv in vars_]
@@ -371,7 +383,28 @@ def run_case(case):
                 if float(np.abs(gotv - wantv).max()) > 64 * EPS * vs * N * (1 + scale):
                     add('frame:%s-variational-particles-not-shifted-consistently' % shift, 'N=%d: variational particle coordinates after the shift differ from d/dp of the shifted state by %.3e (scale %.3e)' % (
                         N, float(np.abs(gotv - wantv).max()), vs))
-            cells.add(json.dumps(['frame', shift, nvar > 0]))
+            if v2 is not None:
+                # second derivative of y_i = x_i - S/M with S = sum m_j x_j, M = sum m_j, all evaluated on the state BEFORE the shift
+                counters['second_order_variational_shifts'] = counters.get('second_order_variational_shifts', 0) + 1
+                if shift == 'com':
+                    S = (m0[:, None] * real0).sum(axis=0)
+                    Sa = (dm0[0][:, None] * real0 + m0[:, None] * var0[0]).sum(axis=0)
+                    Sb = (dm0[1][:, None] * real0 + m0[:, None] * var0[1]).sum(axis=0)
+                    Sab = (ddm0[:, None] * real0 + dm0[0][:, None] * var0[1] + dm0[1][:, None] * var0[0] + m0[:, None] * var20).sum(axis=0)
+                    Ma, Mb, Mab = dm0[0].sum(), dm0[1].sum(), ddm0.sum()
+                    ddref = Sab / Mt - (Sa * Mb + Sb * Ma) / Mt ** 2 - S * Mab / Mt ** 2 + 2 * S * Ma * Mb / Mt ** 3
+                else:
+                    ddref = var20[0]
+                want2 = var20 - ddref
+                got2 = np.array([[v2.particles[i].x, v2.particles[i].y, v2.particles[i].z, v2.particles[i].vx, v2.particles[i].vy, v2.particles[i].vz] for i in range(N)], dtype=ld)
+                vs2 = float(np.abs(var20).max()) + float(np.abs(ddref).max()) + 1e-300
+                mixed = bool(np.any(dm0[0] != 0) and np.any(dm0[1] != 0))
+                if mixed:
+                    counters['second_order_shifts_with_two_mass_variations'] = counters.get('second_order_shifts_with_two_mass_variations', 0) + 1
+                if float(np.abs(got2 - want2).max()) > 256 * EPS * vs2 * N * (1 + scale) * (1 + float(np.abs(dm0[0]).max() + np.abs(dm0[1]).max()) / float(Mt)) ** 2:
+                    add('frame:%s-second-order-variational-particles-not-shifted-consistently' % shift, 'N=%d: second-order variational coordinates after the shift differ from d2/dp dq of the shifted state by %.3e (scale %.3e; both parents vary masses: %r)' % (
+                        N, float(np.abs(got2 - want2).max()), vs2, mixed))
+            cells.add(json.dumps(['frame', shift, nvar > 0, v2 is not None]))
             # linear maps on simulations
             counters['linear_maps'] += 1
             s1 = rebound.Simulation()
